@@ -164,7 +164,7 @@ func judge(r Route) []string {
 		}
 	}
 	// R5: returns error or (T, error) whose last type is or embeds error
-	errLike := func(t string) bool { return t == "error" || t == "CErr§" }
+	errLike := func(t string) bool { return t == "error" || t == "CErr§" || t == "xerr.XErr§" || t == "*CErr§" }
 	switch len(r.Rets) {
 	case 1:
 		if !errLike(r.Rets[0]) {
@@ -467,6 +467,14 @@ func perturbations(b Route) []pert {
 			r.Rets[len(r.Rets)-1] = "CErr§"
 			return true
 		}},
+		// an error type declared in another package, and a pointer to one: both "are or embed error"
+		pert{"ret.last->CErr-from-another-package", func(r *Route) bool {
+			if len(r.Rets) == 0 || r.Rets[len(r.Rets)-1] == "xerr.XErr§" {
+				return false
+			}
+			r.Rets[len(r.Rets)-1] = "xerr.XErr§"
+			return true
+		}},
 		pert{"ret.add-value", func(r *Route) bool {
 			if len(r.Rets) != 1 {
 				return false
@@ -583,7 +591,14 @@ func render(id string, r Route) scen.Unit {
 		}
 	}
 	decl := sub("type Body§ struct {\n\tA string `json:\"a\"`\n}\n\ntype E§ string\n\nconst (\n\tE§A E§ = \"a\"\n\tE§B E§ = \"b\"\n)\n\ntype TS§ string\n\ntype CErr§ struct {\n\terror\n\tCode int `json:\"code\"`\n}\n")
-	return scen.Unit{Controllers: []scen.Controller{ctl}, Decls: map[string]string{id: decl}, Imports: map[string][]string{id: {"context"}}}
+	u := scen.Unit{Controllers: []scen.Controller{ctl}, Decls: map[string]string{id: decl}, Imports: map[string][]string{id: {"context"}}}
+	for _, rt := range r.Rets {
+		if strings.Contains(rt, "xerr.") {
+			u.Decls[id+"/xerr"] = sub("type XErr§ struct {\n\terror\n\tCode int `json:\"code\"`\n}\n")
+			u.Imports[id] = append(u.Imports[id], "xerr "+scen.ModulePath+"/"+id+"/xerr")
+		}
+	}
+	return u
 }
 
 type caseInfo struct {
